@@ -145,6 +145,10 @@ module Z :
 
 val nth : nat -> 'a1 list -> 'a1 -> 'a1
 
+val last : 'a1 list -> 'a1 -> 'a1
+
+val forallb : ('a1 -> bool) -> 'a1 list -> bool
+
 val firstn : nat -> 'a1 list -> 'a1 list
 
 val ex_keep : (((((nat * n) * z) * z list) * z option) * positive) * bool
@@ -166,6 +170,10 @@ val value : z -> pylong -> z
 val ndigits : pylong -> z
 
 val digit : pylong -> nat -> z
+
+val digit_okb : z -> z -> bool
+
+val wfb : z -> pylong -> bool
 
 val joinl_c : z -> bool -> z -> z list -> z option
 
